@@ -15,7 +15,7 @@ import (
 // Domain "loc": histories of Location operations over several locations
 // (indexed and linear state, MemStorage, SimpleLocationProvider).
 
-var locProfiles = []string{"search", "dispatch", "lifecycle", "cascade", "acl", "capacity", "forest", "expiry", "query"}
+var locProfiles = []string{"search", "dispatch", "lifecycle", "cascade", "acl", "capacity", "forest", "expiry", "query", "events"}
 
 func init() {
 	register("loc", &Domain{Gen: genLoc, Exec: execLoc})
@@ -43,6 +43,7 @@ type locGen struct {
 	facts    []map[string]interface{}
 	keyed    bool
 	timeUnit int64
+	sem      map[string]interface{} // script table shared by the rules of a case
 }
 
 func rulePat(p interface{}) map[string]interface{} {
@@ -91,15 +92,17 @@ func (lg *locGen) op() map[string]interface{} {
 	}
 	w := map[string][]int{
 		//            addfact addrule remfact remrule get getrule search event enable clear setparents getparents size reload special
-		"search":    {32, 3, 10, 1, 12, 1, 36, 0, 0, 1, 0, 0, 1, 3, 0, 0},
-		"dispatch":  {6, 30, 2, 8, 2, 3, 2, 36, 4, 1, 2, 0, 0, 3, 0, 0},
-		"lifecycle": {6, 22, 2, 10, 2, 2, 2, 30, 16, 1, 0, 0, 0, 6, 3, 0},
-		"cascade":   {30, 8, 15, 6, 6, 0, 12, 6, 6, 1, 0, 0, 4, 4, 0, 0},
-		"acl":       {12, 8, 6, 4, 8, 4, 10, 8, 4, 2, 4, 4, 4, 2, 20, 0},
-		"capacity":  {40, 14, 14, 4, 2, 0, 4, 2, 6, 2, 0, 0, 8, 2, 0, 0},
-		"forest":    {14, 12, 3, 3, 3, 1, 18, 18, 3, 1, 14, 4, 0, 3, 0, 0},
-		"expiry":    {25, 12, 3, 2, 14, 2, 14, 12, 2, 0, 0, 0, 2, 8, 0, 0},
-		"query":     {34, 2, 6, 0, 2, 0, 6, 0, 0, 1, 0, 0, 0, 3, 1, 40},
+		"search":    {32, 3, 10, 1, 12, 1, 36, 0, 0, 1, 0, 0, 1, 3, 0, 0, 0},
+		"dispatch":  {6, 30, 2, 8, 2, 3, 2, 36, 4, 1, 2, 0, 0, 3, 0, 0, 0},
+		"lifecycle": {6, 22, 2, 10, 2, 2, 2, 30, 16, 1, 0, 0, 0, 6, 3, 0, 0},
+		"cascade":   {30, 8, 15, 6, 6, 0, 12, 6, 6, 1, 0, 0, 4, 4, 0, 0, 0},
+		"acl":       {12, 8, 6, 4, 8, 4, 10, 8, 4, 2, 4, 4, 4, 2, 20, 0, 0},
+		"capacity":  {40, 14, 14, 4, 2, 0, 4, 2, 6, 2, 0, 0, 8, 2, 0, 0, 0},
+		"forest":    {14, 12, 3, 3, 3, 1, 18, 18, 3, 1, 14, 4, 0, 3, 0, 0, 0},
+		"expiry":    {25, 12, 3, 2, 14, 2, 14, 12, 2, 0, 0, 0, 2, 8, 0, 0, 0},
+		"query":     {34, 2, 6, 0, 2, 0, 6, 0, 0, 1, 0, 0, 0, 3, 1, 40, 0},
+		//            (addrule weight is used for rules with conditions/actions; last column: process)
+		"events":    {22, 26, 4, 4, 1, 1, 2, 2, 5, 1, 0, 0, 0, 3, 0, 0, 40},
 	}[lg.profile]
 	total := 0
 	for _, x := range w {
@@ -175,6 +178,9 @@ func (lg *locGen) op() map[string]interface{} {
 			lg.expiry(rule)
 		}
 		o["rule"] = rule
+		if lg.profile == "events" {
+			lg.eventsRule(o)
+		}
 	case 2:
 		o["op"], o["id"] = "remfact", id
 		if r.Intn(30) == 0 {
@@ -230,6 +236,8 @@ func (lg *locGen) op() map[string]interface{} {
 		o["op"] = "reload"
 	case 15:
 		lg.queryOp(o)
+	case 16:
+		lg.processOp(o)
 	default:
 		// property facts that configure the location's gates
 		o["op"] = "addfact"
@@ -298,7 +306,7 @@ func genLoc(r *rand.Rand, n int, tier string) []Case {
 
 func genLocCase(r *rand.Rand, prof string) Case {
 	g := newG(r)
-	lg := &locGen{g: g, r: r, profile: prof}
+	lg := &locGen{g: g, r: r, profile: prof, sem: map[string]interface{}{}}
 	nids := 3 + r.Intn(3)
 	for k := 0; k < nids; k++ {
 		lg.ids = append(lg.ids, fmt.Sprintf("i%d", k))
@@ -607,6 +615,8 @@ func execLocOp(w *locWorld, o map[string]interface{}) {
 			}
 			res = map[string]interface{}{"ok": true, "found": found}
 		}
+	case "process":
+		res = execProcess(loc, ctx, o)
 	case "query":
 		js, _ := json.Marshal(plain(o["query"]))
 		qr, err := loc.Query(ctx, string(js))
